@@ -13,7 +13,7 @@ import (
 // call and every secret allocation of an encrypt and of a decrypt in the cold, warm
 // and rotating scenarios, and then inspects the retained buffers.
 func TestFaultsAfterPlaintextExists(t *testing.T) {
-	kit.Check(t, 40, 800, func(t *rapid.T) {
+	kit.Check(t, 120, 1600, func(t *rapid.T) {
 		op := rapid.SampledFrom([]string{"encrypt", "decrypt"}).Draw(t, "op")
 		states := world.KeyStates
 		if op == "decrypt" {
